@@ -3,5 +3,6 @@ import Props.C06
 import Props.C12
 import Props.C13
 import Props.C14
+import Props.C16
 import Props.C19
 import Props.C20
